@@ -2,7 +2,7 @@
    Only theorem statements closed by `exact` (or a one-line combination), each followed by
    Print Assumptions; plus non-vacuity examples and the refutation witnesses of the findings. *)
 From Snax Require Import Base.Prelude Model.Tsl Model.C12Const Model.C12Casts Proofs.TslProofs
-  Proofs.C05DigitProofs Proofs.C05MainProofs Proofs.C05ExtraProofs Proofs.C12ConstProofs Proofs.C12CastsProofs Proofs.C12CoherenceProofs Proofs.C12NestedProofs Proofs.C12ComposeProofs Proofs.C12DenseProofs.
+  Proofs.C05DigitProofs Proofs.C05MainProofs Proofs.C05ExtraProofs Proofs.C12ConstProofs Proofs.C12CastsProofs Proofs.C12CoherenceProofs Proofs.C12NestedProofs Proofs.C12ComposeProofs Proofs.C12DenseProofs Proofs.C12LiftProofs.
 
 (* (i) re-laid-out constants: for every static layout with positive bounds that satisfies the
    sortedness precondition (checked to follow from is_dense by the correspondence run), any contents
@@ -226,3 +226,38 @@ Example C12_dense_nonvacuous :
   layout_okb L = true /\ forallb (fun sb0 => 0 <? fst sb0) (flat_static L) = true /\ is_dense L = true.
 Proof. repeat split; reflexivity. Qed.
 Print Assumptions C12_dense_nonvacuous.
+
+(* (ii) two-state form of the block theorem: the two runs may enter the block in states that differ at the
+   name d and at the buffer d (Pre), which is what happens when the cast sits inside a loop body and every
+   iteration re-executes the allocation; the realised block re-establishes Pre. *)
+Theorem C12_realize_block2 :
+  forall (trips : nat -> nat) (d src td ts s0 : nat) (others : list nat) (post : list item) (s s' : state),
+    Pre d s s' -> alias s src = alias s s0 ->
+    In (alias s s0) others -> In s0 others -> ~ In d others ->
+    (forall v, v <> d -> alias s v = alias s s0 -> In v others) ->
+    safe_nested d others post = true ->
+    Pre d (exec_list trips (ICast d src td ts :: post) s)
+          (exec_list trips (IAlloc d :: fst (ins_list d s0 false false post)) s').
+Proof. exact realize_block2. Qed.
+Print Assumptions C12_realize_block2.
+
+(* (ii) program level with the cast ANYWHERE, in particular inside loop bodies at any depth: if the cast is
+   followed by a Safe block, every other item does not mention d (frame lemma), and a state invariant Inv
+   of the ORIGINAL run (preserved by the items, providing the alias facts about the source buffer at the
+   cast) is given, the program rewritten by the walker (rz_list) is equivalent for every assignment of
+   trip counts.  `lift_ok` is the inductive description of these positions. *)
+Theorem C12_realize_anywhere_equiv :
+  forall (p : list item) (d s0 : nat) (others : list nat) (Inv : state -> Prop),
+    In s0 others -> ~ In d others ->
+    (forall s, Inv s -> In (alias s s0) others /\ (forall v, v <> d -> alias s v = alias s s0 -> In v others)) ->
+    Inv init_state -> (forall trips : nat -> nat, lift_ok trips p d s0 others Inv p) ->
+    prog_equiv [d] p (rz_list p d p).
+Proof. exact realize_anywhere_equiv. Qed.
+Print Assumptions C12_realize_anywhere_equiv.
+
+Example C12_realize_in_loop_applies :
+  let p := [ILoop 7 [ICast 2 0 1 0; IOp 0 [(2, KInOut)]]; IOp 9 [(0, KRet)]]%nat in
+  prog_equiv [2%nat] p (rz_list p 2%nat p) /\
+  rz_list p 2%nat p = [ILoop 7 [IAlloc 2; ICopy 0 2; IOp 0 [(2, KInOut)]; ICopy 2 0]; IOp 9 [(0, KRet)]]%nat.
+Proof. exact realize_in_loop_applies. Qed.
+Print Assumptions C12_realize_in_loop_applies.
